@@ -334,9 +334,12 @@ const A_ECHO: &str = "handler bodies are generated echo functions (svrt::echo_*)
 const A_DOMAIN: &str = "program generator domain: 0..3 interfaces, all non-reply kinds, 0..3 generic parameters with where-clause bounds, custom msg/query variants, forwarded attributes; no lifetimes, pattern parameters or inline bounds";
 
 fn msg_family(ctx: &Ctx, s2: bool, family: &'static str, rule: &'static str, assumptions: &[&str]) -> Outcome {
+    msg_family_opts(ctx, GenOpts { s2_names: s2, ..GenOpts::default() }, family, rule, assumptions)
+}
+
+fn msg_family_opts(ctx: &Ctx, opts: GenOpts, family: &'static str, rule: &'static str, assumptions: &[&str]) -> Outcome {
     let quick = ctx.quick();
     let (nprog, cases) = if quick { (48usize, 64u32) } else { (320, 256) };
-    let opts = GenOpts { s2_names: s2, ..GenOpts::default() };
     let programs = replay_programs(ctx).unwrap_or_else(|| crate::fam_msg(ctx.seed, nprog, &opts));
     e2_run(ctx, E2Spec { exe_prop: None, family, programs, cases, rule, assumptions: assumptions.iter().map(|s| s.to_string()).collect(), alias: None })
 }
@@ -598,7 +601,10 @@ pub fn run(ctx: &Ctx) -> i32 {
                 Ok(exe) => crate::e1props::c06a(ctx, &exe, &mut out),
                 Err(e) => out.inconclusive = Some(e),
             }
-            out
+            let b = msg_family(ctx, true, "fam_msg_s2",
+                "(b) compiled fam_msg programs, 25% with 1..2 overridden kinds and 25% with legacy reply handlers: for every handler of a non-overridden kind, `cases` tuples (args, env, info, outcome) sent as model JSON to the generated entry point and to the generated cw_multi_test::Contract impl must satisfy the C02 call-log oracle (contract built with new(), same deps/env/info, handler's outcome with the contract's error type); overridden kinds have no generated entry point and are routed to the user's function by the multitest impl; legacy reply: entry point and multitest impl hand the Reply to the same single reply handler. Non-trivial = program with overrides, a migrate handler, or the failing outcome.",
+                &[A_ECHO, A_SERDE, A_NATIVE, A_DOMAIN]);
+            merge_outcomes(out, b)
         }
         "C13" => {
             let mut out = Outcome { rule: "generated impl blocks, traits and entry_points inputs with rich surface syntax (doc comments, cfg/allow/must_use/inline/deprecated and look-alike attributes such as #[other::msg(exec)] / #[svx::error(E)] on items and methods, all visibilities, generics + where clauses, helper methods without message attributes incl. attributes on their parameters, associated consts, nested items / closures / attribute-like text in bodies, attributes on handler parameters and receivers) rendered twice from one structure: as written and with framework attributes and handler-parameter attributes left out (never through a fold); plus every annotated item of /repo/sylvia/tests and /repo/examples with an independently written attribute filter. Oracle: first item of the macro output == expectation (token-normalised by one syn parse->print); same input expanded twice in one process and once in a second process gives identical strings. Non-trivial = item with a helper method, a foreign attribute, a nested item, or a real source item.".into(), ..Default::default() };
@@ -637,9 +643,15 @@ pub fn run(ctx: &Ctx) -> i32 {
             crate::e3props::run_probes(ctx, "units_c15", crate::e3props::c15_probes(), None, &mut out);
             out
         }
-        "C17" => e1_tape(ctx, "placement", if ctx.quick() { 2000 } else { 40000 }, crate::e1props::c17a_case,
+        "C17" => {
+            let a = e1_tape(ctx, "placement", if ctx.quick() { 2000 } else { 40000 }, crate::e1props::c17a_case,
             "(a) fam_msg programs with inert marker attributes #[doc = \"vp-N\"] forwarded by sv::msg_attr(kind, ..) (several kinds per program), sv::attr(..) (per handler) and written on handler arguments; oracle: in the parsed expansions of all macros of the program every marker occurs exactly once, on the generated type of that kind / that handler's variant / that argument's field, and nowhere else (proxies, constructors, wrappers, re-emitted input included). Non-trivial = program with >=2 markers on >=2 different kinds of items.",
-            &["token-level check on in-process expansions (engine E1); the serde effect of forwarded field attributes is exercised on compiled programs by C03 (missing-field documents with #[serde(default)] arguments)", A_DOMAIN]),
+            &["token-level check on in-process expansions (engine E1)", A_DOMAIN]);
+            let b = msg_family_opts(ctx, GenOpts { s2_names: false, aliases: true, overrides: false, ..GenOpts::default() }, "fam_msg_alias",
+                "(b) compiled fam_msg programs with #[serde(default)] on 12% of the eligible arguments and `sv::attr(serde(alias = ..))` on 40% of the enum handlers: per handler `cases` documents with one field removed -- accepted by the part iff that argument carries the forwarded default (or is an Option), and then the handler receives the type's default value; every alias is accepted by its own variant (and dispatches to that handler) and by no other message type of the program. Non-trivial = dropped field with a forwarded default, or an alias probe.",
+                &[A_ECHO, A_SERDE, A_NATIVE, A_DOMAIN, "aliases are judged on the part message types only (the routing lists of the contract-level wrapper do not know forwarded aliases; C03 therefore runs on programs without them)"]);
+            merge_outcomes(a, b)
+        }
         "C12" => msg_family(ctx, false, "fam_msg_s1",
             "fam_msg programs (S1 names, so the raw JSON is produced by the model encoder alone); per program `cases`*5/8 histories of 1..12 (thorough ..30) operations over 3 senders with initial balances: instantiate (label / admin / funds / salt options, each present or not), exec with funds, query, sudo, migrate to a freshly stored code, and a switch making a contract's handlers fail; chain A is driven through the generated proxies (CodeId::store_code, InstantiateProxy options, ExecProxy::with_funds, query / sudo / migrate proxies), chain B is a plain cw-multi-test app holding ContractWrapper over the generated entry points and receives WasmMsg::{Instantiate,Instantiate2,Execute,Migrate} / WasmQuery::Smart / SudoMsg::Wasm with model-encoded JSON bodies; after every step results (addresses, events, data, query values) and storage dumps, contract info (code id, creator, admin, label) and all balances must agree; a failing handler must surface on the proxy side as the contract's error type equal to the error the handler constructed. Non-trivial = history with an instantiate carrying >=2 options, a failing handler and an exec with funds after it.",
             &[A_ECHO, A_SERDE, A_NATIVE, A_DOMAIN, "failures that do not come from a handler (insufficient funds, not the admin) are compared as `both sides fail and states stay equal`; a proxy that panics there is counted as failing (the property speaks about handler errors)", "override_entry_point programs are exercised by C06; reply programs by C07-C09"]),
